@@ -27,6 +27,8 @@
 package sroa
 
 import (
+	"sort"
+
 	"github.com/gogpu/naga/ir"
 )
 
@@ -47,15 +49,22 @@ func Run(mod *ir.Module, fn *ir.Function) int {
 		return 0
 	}
 
-	count := 0
+	// Decompose in increasing local-variable index. decompose appends new
+	// locals and expressions to fn, so walking the candidates map directly
+	// would number them in Go's randomized map order and make the generated
+	// DXIL differ from run to run.
+	varIdxs := make([]uint32, 0, len(candidates))
 	for varIdx, info := range candidates {
-		if !info.eligible {
-			continue
+		if info.eligible {
+			varIdxs = append(varIdxs, varIdx)
 		}
-		decompose(mod, fn, varIdx, info)
-		count++
 	}
-	return count
+	sort.Slice(varIdxs, func(i, j int) bool { return varIdxs[i] < varIdxs[j] })
+
+	for _, varIdx := range varIdxs {
+		decompose(mod, fn, varIdx, candidates[varIdx])
+	}
+	return len(varIdxs)
 }
 
 // allMembersDecomposable checks that all struct members have types that
